@@ -108,6 +108,23 @@ class OsShim:
         return dev.write(fd, bytes(data))
 
 
+class GlobShim:
+    """Replacement for the `glob` module inside dali.driver.hid: device nodes exist while the device is present."""
+
+    def __init__(self, os_shim):
+        self.os_shim = os_shim
+        self.calls = 0
+
+    def glob(self, pattern):
+        import fnmatch
+        self.calls += 1
+        found = sorted(p for p, dev in self.os_shim.paths.items() if dev.present and fnmatch.fnmatch(p, pattern))
+        if not found:
+            # an attempt to (re)open that found no device node: logged like a failed open
+            self.os_shim.log.append(("open", self.os_shim.world.now, pattern, False))
+        return found
+
+
 class HidDevice:
     def __init__(self, world, pick):
         self.world, self.pick = world, pick
